@@ -7,7 +7,8 @@ deterministic schema provider below and the parser model, and print results, pro
 
 ops (joined by `;`):  `new` | `nodisk` | `get:<hex name>` | `crash:<steps>:<flushed>:<hex name>` | `put:<hex file name>:<hex text>`
 every `get`/`crash` result is prefixed with `+` (the provider was asked) or `-`; `put` = somebody else (an earlier version of the
-library, an editor) writes a file into the cache directory — not an operation of the class.
+library, an editor) writes a file into the cache directory — not an operation of the class.  A history that starts with `anylength`
+carries names whose file name exceeds the 255 bytes a file system takes: outside the model (no length limit), answered `UNMODELLED`.
 
 `QUOTE <hex name>` = the file name of a table (`Cache.enc n ++ ".sql"`); `STEM <hex file name>` = the table name `__init__` reads
 out of a directory entry (`Cache.entryName`).
@@ -92,6 +93,7 @@ def cacheOp (r : CacheRun) (op : String) : CacheRun :=
 def cmdCache : List String → Option String
   | ["CACHE", h] =>
     let ops := (unhexS h).splitOn ";"
+    if ops.head? == some "anylength" then some "UNMODELLED file name length" else
     let r := ops.foldl cacheOp { st := fresh true, live := false, out := [] }
     some <|
       match r.out.find? (fun o => (o.drop 1).startsWith "UNMODELLED" || (o.drop 1).startsWith "E:UNMODELLED") with
